@@ -9,6 +9,11 @@ Import ListNotations.
 From TV Require Import C01.Model.
 Local Open Scope N_scope.
 
+(* HTTP1Connection.__init__: self._max_body_size = params.max_body_size if it is not None
+   else stream.max_buffer_size  (0 is a limit, not "unset") *)
+Definition conn_max_body (params_max_body : option N) (stream_max_buffer : N) : N :=
+  match params_max_body with Some n => n | None => stream_max_buffer end.
+
 Section Gzip.
   (* GzipDecompressor: [inflate st data max_length] = Some (st', output, unconsumed_tail),
      or None when zlib raises (converted to HTTPInputError since /repo commit 4f57f99) *)
